@@ -185,7 +185,7 @@ func (ex *Exec) recordFinding(s *State, kind, label, site string, model map[int]
 		model = m
 	}
 	f := Finding{Kind: kind, Label: label, Site: site, Harness: ex.harness, Params: ex.params,
-		Stream: ex.streamFromModel(s, model)}
+		Stream: ex.streamFromModel(s, model), Trace: s.btrace}
 	ex.Findings = append(ex.Findings, f)
 }
 
@@ -243,6 +243,10 @@ func ConcreteRun(p *Program, harness string, params map[string]int, conc map[str
 	}()
 	ex.RunHarness()
 	tr := ex.ConcTrace
+	if BTrace {
+		tr = append(tr, "BTRACE:")
+		tr = append(tr, ex.lastBTrace...)
+	}
 	for k, n := range ex.Stats.Unsupported {
 		tr = append(tr, fmt.Sprintf("unsupported %s x%d", k, n))
 	}
